@@ -399,9 +399,10 @@ add("C02", "fixed", "escape:ValueError@extra/filters/babel.py:_resolve_locale", 
     "(unknown but well-formed identifiers already fell back to the default locale)",
     [c02("{{ 10 | currency }}", {"locale": ""}), c02("{{ 1.5 | decimal }}", {"input_locale": "%"})], "b2fb474")
 
-add("C17", "fixed", "history-dependent:template-object-kept-across-other-renders", "a template object obtained from a caching loader with get_template(name, globals=...) and kept by the application rendered differently "
-    "(same data) after any other template that includes / renders / extends the same name had been rendered: the tag's load replaced the globals pinned to the cached object",
-    [], "a8317ab")
+add("C17", "open", "history-dependent:template-object-kept-across-other-renders:pinned-globals-replaced-by-a-tag-load",
+    "a template object obtained from a caching loader with get_template(name, globals=...) and kept by the application renders differently (same data) after any other "
+    "template that includes / renders / extends the same name was rendered: every load of a cached name, a tag's included, replaces the globals pinned to the shared cached object",
+    [])
 
 if __name__ == "__main__":
     # further entries are appended by tools/mkfindings.py from triaged replay files and kept in findings_extra.json
